@@ -5,6 +5,7 @@ import (
 	"go/token"
 	"go/types"
 	"math/big"
+	"sort"
 	"strings"
 
 	"golang.org/x/tools/go/ssa"
@@ -47,13 +48,55 @@ func (fr *frame) doCall(st *State, c *ssa.CallCommon, pos token.Pos, in ssa.Valu
 		// dynamic call through a function value
 		return fr.callDynamic(st, c, pos, in)
 	}
-	fr.callSiteAsserts(st, callee, pos)
 	args := fr.argVals(st, c)
+	fr.callSiteAsserts(st, callee, pos, args)
 	if _, isClosure := c.Value.(*ssa.MakeClosure); isClosure || len(callee.FreeVars) > 0 {
 		vc.note("call of a closure in " + shortFuncName(fr.fn))
 		vc.havocAll(st)
 		return fr.arbitraryResult(st, callee.Signature)
 	}
+	return fr.callStatic(st, callee, args, pos)
+}
+
+// callOrdinal: position of the call at pos among the calls of functions named name in the function under verification,
+// counted in source order.
+func (fr *frame) callOrdinal(name string, pos token.Pos) int {
+	vc := fr.vc
+	if vc.callSites == nil {
+		vc.callSites = map[string][]token.Pos{}
+		for _, b := range fr.fn.Blocks {
+			for _, in := range b.Instrs {
+				ci, ok := in.(ssa.CallInstruction)
+				if !ok {
+					continue
+				}
+				if cal := ci.Common().StaticCallee(); cal != nil {
+					vc.callSites[cal.Name()] = append(vc.callSites[cal.Name()], in.Pos())
+				}
+			}
+		}
+		for k := range vc.callSites {
+			ps := vc.callSites[k]
+			sort.Slice(ps, func(i, j int) bool { return ps[i] < ps[j] })
+		}
+	}
+	for i, p := range vc.callSites[name] {
+		if p == pos {
+			return i
+		}
+	}
+	// unknown position (synthetic call): fall back to execution order
+	if vc.callCount == nil {
+		vc.callCount = map[string]int{}
+	}
+	n := vc.callCount[name]
+	vc.callCount[name] = n + 1
+	return 1000 + n
+}
+
+// callStatic: a call whose target function is known (contract, external stub, inlining or effect summary, in that order).
+func (fr *frame) callStatic(st *State, callee *ssa.Function, args []*Val, pos token.Pos) *Val {
+	vc := fr.vc
 	if con := vc.eng.Contracts[callee]; con != nil && !(fr.top && callee == vc.fn && false) {
 		vc.calleesContract[shortFuncName(callee)] = true
 		return fr.applyContract(st, con, args, pos, callee.Signature)
@@ -669,6 +712,9 @@ func (fr *frame) callDynamic(st *State, c *ssa.CallCommon, pos token.Pos, in ssa
 			}
 		}
 	}
+	if v := fr.callThroughField(st, c, pos); v != nil {
+		return v
+	}
 	fv := fr.val(st, c.Value)
 	if fv.Fn != nil && fv.Fn.Blocks != nil && len(fv.Fn.FreeVars) == 0 {
 		if con := vc.eng.Contracts[fv.Fn]; con != nil {
@@ -678,6 +724,93 @@ func (fr *frame) callDynamic(st *State, c *ssa.CallCommon, pos token.Pos, in ssa
 	vc.note("dynamic call through a function value in " + shortFuncName(fr.fn))
 	vc.havocAll(st)
 	return fr.arbitraryResult(st, sig)
+}
+
+// callThroughField: a call of a func-typed struct field without a field contract is a guarded choice among the named
+// functions that are stored into that field anywhere in the module (closed world: the module is the whole program for
+// its own unexported fields; for exported fields this is an assumption, recorded as such).
+func (fr *frame) callThroughField(st *State, c *ssa.CallCommon, pos token.Pos) *Val {
+	vc := fr.vc
+	u, ok := c.Value.(*ssa.UnOp)
+	if !ok || u.Op != token.MUL {
+		return nil
+	}
+	fa, ok := u.X.(*ssa.FieldAddr)
+	if !ok {
+		return nil
+	}
+	pt, ok := fa.X.Type().Underlying().(*types.Pointer)
+	if !ok {
+		return nil
+	}
+	nt, ok := pt.Elem().(*types.Named)
+	if !ok || nt.Obj().Pkg() == nil {
+		return nil
+	}
+	stt, ok := nt.Underlying().(*types.Struct)
+	if !ok {
+		return nil
+	}
+	key := nt.Obj().Pkg().Path() + "." + nt.Obj().Name() + "." + stt.Field(fa.Field).Name()
+	impls, err := vc.eng.fieldImplsByKey(key)
+	if err != nil || len(impls) == 0 || len(impls) > 8 {
+		return nil
+	}
+	sig := c.Signature()
+	nres := sig.Results().Len()
+	fv := fr.term(st, c.Value)
+	args := fr.argVals(st, c)
+	vc.oblige("safety.nil", st, Not(Eq(fv, IntLit64(0))), pos, "call of nil function value")
+	var eqs []*Term
+	for _, f := range impls {
+		eqs = append(eqs, Eq(fv, vc.eng.funcIDTerm(f)))
+	}
+	vc.assume(st.guard, Or(eqs...))
+	vc.assumed["closed world for func-typed field "+shortName(key)+": it holds one of the functions stored into it somewhere in the module"] = true
+	var states []*State
+	var results []*Val
+	for i, f := range impls {
+		s2 := st.clone()
+		s2.guard = vc.define("g", And(st.guard, eqs[i]))
+		r := fr.callStatic(s2, f, args, pos)
+		if s2.dead {
+			continue
+		}
+		if nres == 1 && (r == nil || r.T == nil) || nres > 1 && (r == nil || len(r.Tuple) != nres) {
+			return nil
+		}
+		states = append(states, s2)
+		results = append(results, r)
+	}
+	if len(states) == 0 {
+		st.dead = true
+		st.guard = TFalse
+		return &Val{T: IntLit64(0)}
+	}
+	merged := vc.merge(states)
+	*st = *merged
+	switch {
+	case nres == 0:
+		return &Val{T: IntLit64(0)}
+	case nres == 1:
+		ts := make([]*Term, len(results))
+		for j, r := range results {
+			ts[j] = r.T
+		}
+		return &Val{T: vc.mergeTerms("dyn", states, ts), Go: sig.Results().At(0).Type()}
+	}
+	var tv []*Val
+	for i := 0; i < nres; i++ {
+		ts := make([]*Term, len(results))
+		for j, r := range results {
+			if r.Tuple[i].T == nil {
+				return &Val{Tuple: results[0].Tuple}
+			}
+			ts[j] = r.Tuple[i].T
+		}
+		tv = append(tv, &Val{T: vc.mergeTerms("dyn", states, ts), Go: sig.Results().At(i).Type()})
+	}
+	return &Val{Tuple: tv}
 }
 
 // ---------------------------------------------------------------- external functions (trusted stubs)
@@ -907,17 +1040,14 @@ func (vc *VC) mergeAddrResults(states []*State, rets []*retInfo, i int, rt types
 
 // callSiteAsserts checks the contract's "assert call(callee, n): e" clauses just before the n-th call of callee
 // (in instruction order of the SSA walk, i.e. source order for straight-line code).
-func (fr *frame) callSiteAsserts(st *State, callee *ssa.Function, pos token.Pos) {
+func (fr *frame) callSiteAsserts(st *State, callee *ssa.Function, pos token.Pos, args []*Val) {
 	vc := fr.vc
 	if !fr.top || vc.con == nil || len(vc.con.Asserts) == 0 {
 		return
 	}
 	name := callee.Name()
-	if vc.callCount == nil {
-		vc.callCount = map[string]int{}
-	}
-	n := vc.callCount[name]
-	vc.callCount[name] = n + 1
+	// the n-th call of this callee in source order (independent of the order in which blocks are executed symbolically)
+	n := fr.callOrdinal(name, pos)
 	cls := vc.con.Asserts[fmt.Sprintf("%s#%d", name, n)]
 	if len(cls) > 0 {
 		if vc.assertHit == nil {
@@ -934,6 +1064,12 @@ func (fr *frame) callSiteAsserts(st *State, callee *ssa.Function, pos token.Pos)
 			}
 		}
 		env.local = func(nm string, s *State) *SVal { return fr.resolveLocal(nm, pos, s) }
+		// arg0, arg1, ...: the actual arguments of this call (receiver first)
+		for j, a := range args {
+			if a != nil && a.T != nil {
+				env.vars[fmt.Sprintf("arg%d", j)] = &SVal{T: a.T, Go: a.Go}
+			}
+		}
 		t, err := env.trBool(cl.E)
 		if err != nil {
 			vc.specError(vc.con, cl, err)
